@@ -320,6 +320,13 @@ func (c *checkSchema) collectAllowedJsonTypes(node ischema.Node, ss map[string]i
 	typesConstraint := node.Constraint(constraint.TypesListConstraintType)
 
 	if typesConstraint == nil {
+		if node.Constraint(constraint.AnyConstraintType) != nil {
+			// A type that says `type: "any"` accepts a value of any json type.
+			for _, t := range json.AllTypes {
+				c.allowedJsonTypes[t] = struct{}{}
+			}
+			return
+		}
 		c.allowedJsonTypes[node.Type()] = struct{}{}
 		if node.Constraint(constraint.NullableConstraintType) != nil {
 			c.allowedJsonTypes[json.TypeNull] = struct{}{}
